@@ -1557,6 +1557,26 @@ class _NP(object):
             br = Bridge(None)
             r = np.interp(br.native(x), br.native(xp), br.native(fp), left=None if left is None else float(left), right=None if right is None else float(right))
             return nd_to_arr(np.asarray(r)) if getattr(r, 'ndim', 0) else Fraction(float(r))
+        # exact piecewise-linear semantics when the break-point lists have concrete length (xp increasing: numpy's
+        # documented precondition, emitted as a side obligation)
+        xa, fa = (to_arr(xp) if not isinstance(xp, ArrBase) else xp), (to_arr(fp) if not isinstance(fp, ArrBase) else fp)
+        if xa.ndim == 1 and fa.ndim == 1 and dim_conc(xa.shape[0]) and dim_conc(fa.shape[0]) and xa.shape[0] == fa.shape[0] and 1 <= xa.shape[0] <= 6:
+            k = xa.shape[0]
+            xs, fs = [xa.get(i) for i in range(k)], [fa.get(i) for i in range(k)]
+            lo = fs[0] if left is None else left
+            hi = fs[-1] if right is None else right
+            for i in range(k - 1):
+                c.side('interp-breakpoints-increasing', sym.cmp('<', xs[i], xs[i + 1]))
+
+            def pw(v):
+                r = hi
+                r = ite(sym.cmp('==', v, xs[-1]), fs[-1], r)
+                for i in range(k - 2, -1, -1):
+                    seg = sym.add(fs[i], sym.div(sym.mul(sym.sub(v, xs[i]), sym.sub(fs[i + 1], fs[i])), sym.sub(xs[i + 1], xs[i])))
+                    r = ite(sym.cmp('<', v, xs[i + 1]), seg, r)
+                r = ite(sym.cmp('<', v, xs[0]), lo, r)
+                return r
+            return elementwise(pw, x, rdtype='real')
         if 'assumed-contract:np.interp (shape of x; non-negative ordinates give non-negative values)' not in c.trace:
             c.trace.append('assumed-contract:np.interp (shape of x; non-negative ordinates give non-negative values)')
         nonneg = False
